@@ -169,7 +169,7 @@ def from_cell(c):
 
 
 def same(ref, eng, spec=None):
-    """None if the engine value is the documented value, else a short reason. Returns 'ok:<note>' style notes via second element."""
+    """None if the engine value is the documented value, else a short reason"""
     if ref is None or eng is None:
         return None if (ref is None and eng is None) else ('NULL expected' if ref is None else 'NULL returned')
     if isinstance(ref, bool) or isinstance(eng, bool):
@@ -696,7 +696,7 @@ def _f_sign_nan(c):
          "SELECT TO_BASE(7, 36) returned '7' (ok by accident), TO_BASE(2147483648, 36) returned '2147483648', Trino documents 'zik0zk'; TO_BASE(7, 1) returned '7', Trino raises an error",
          'TO_BASE, radix not in {2,8,16}, engine value == str(x)')
 def _f_to_base_dec(c):
-    return c['key'] == 'TO_BASE' and c['args'][0] is not None and (c['mode'] == 'col' or c['args'][1] not in (2, 8, 16)) and _val(c) == str(c['args'][0])
+    return c['key'] == 'TO_BASE' and not _null_in(c) and c['mode'] != 'col' and c['args'][1] not in (2, 8, 16) and _val(c) == str(c['args'][0])
 
 
 @finding('to_base_negative_twos_complement', 'TO_BASE', "a negative number in radix 2/8/16 is printed as its 64-bit two's complement instead of '-' followed by the magnitude",
@@ -716,9 +716,9 @@ def _f_from_base_panic(c):
          'SELECT WIDTH_BUCKET(-1.5, 10.0, 0.0, 5) returned 0, Trino documents 6', 'WIDTH_BUCKET, bound1 > bound2, engine value == ascending formula')
 def _f_wb_desc(c):
     a = c['args']
-    if c['key'] != 'WIDTH_BUCKET' or any(x is None for x in a[:3]) or not a[1] > a[2] or c['eng'][0] != 'val':
+    if c['key'] != 'WIDTH_BUCKET' or _null_in(c) or c['mode'] == 'col' or not a[1] > a[2] or c['eng'][0] != 'val':
         return False
-    n = 1 if (c['mode'] == 'col' or a[3] is None) else a[3]
+    n = a[3]
     x, lo, hi = a[0], a[1], a[2]
     if x != x:
         return False
@@ -1076,6 +1076,7 @@ def _wb_count0(a):
 
 _ROW0 = {
     'WIDTH_BUCKET': _wb_count0,
+    'TO_BASE': lambda a: str(a[0]),          # radix read from the NULL first row = 0 -> the "other radix" branch prints decimal
     'ROUND/dbl,small': lambda a: FR._round_half_away(a[0], 0),
     'LPAD': lambda a: a[0][:max(a[1], 0)] if a[1] is not None else _NOVAL,
     'RPAD': lambda a: a[0][:max(a[1], 0)] if a[1] is not None else _NOVAL,
@@ -1083,7 +1084,7 @@ _ROW0 = {
 }
 
 
-@finding('parameter_read_from_first_row', 'ROUND, LPAD, RPAD, REGEXP_EXTRACT, WIDTH_BUCKET (also TO_BASE, FROM_BASE, see their findings)', 'a parameter argument given as a column is read from the FIRST row of the batch only '
+@finding('parameter_read_from_first_row', 'ROUND, LPAD, RPAD, REGEXP_EXTRACT, WIDTH_BUCKET, TO_BASE (FROM_BASE: see from_base_bad_radix_panics)', 'a parameter argument given as a column is read from the FIRST row of the batch only '
          '(`value(0)` / `get_int_value(arr, 0)`) and applied to every row: decimals of ROUND, pad string of LPAD/RPAD, group of REGEXP_EXTRACT, radix of TO_BASE/FROM_BASE, bucket count of WIDTH_BUCKET',
          "table u(x, d) = [(NULL, NULL), (0.5, 1)]: SELECT ROUND(x, d) FROM u returned 1.0 for the second row, Trino documents 0.5", 'column mode, function in the table, non-NULL main argument, engine value == the result under the first row\'s (NULL -> default) parameter')
 def _f_row0(c):
